@@ -5,7 +5,9 @@ import os
 
 
 def hx(s):
-    return "-" if s is None else "s" + s.encode().hex()
+    if s is None:
+        return "-"
+    return "s" + (s if isinstance(s, bytes) else s.encode()).hex()
 
 
 SYNTH = [
@@ -60,9 +62,34 @@ def parse_tables(text):
     return res
 
 
-NAMES = ["X", "Y", "Z"]
-VALS = ["a", "b", "c", "d"]
-ONAMES = ["n0", "n1", "big name", "<&>\"'"]
+# strings by byte class: what a name / info name / info value may hold (anything but NUL)
+BYTE_CLASSES = {
+    "utf8": "\u00e9\u20ac\U0001f600 \u4e2d".encode(), "tab": b"a\tb", "lf": b"a\nb", "cr": b"a\rb", "crlf": b"a\r\nb",
+    "ctl01": b"a\x01b", "ctl1f": b"\x1f", "ctl0b": b"x\x0b\x0cy", "del": b"a\x7fb",
+    "hi80": b"a\x80b", "hiff": b"\xff", "latin1": b"caf\xe9", "overlong": b"\xc0\x80", "surrogate": b"\xed\xa0\x80",
+    "xml": b"&<>\"'", "entity": b"&amp;&#10;&lt;", "cdata": b"]]><!--", "lead": b"  a", "trail": b"a  ", "blank": b" ", "empty": b"",
+    "mixed": "\u00e9&<\t \u20ac\n".encode(),
+}
+RICH = list(BYTE_CLASSES.values())
+
+
+def xml_unsafe(b):
+    """bytes XML 1.0 in UTF-8 cannot carry: C0 controls other than TAB/LF/CR, U+FFFE/U+FFFF, invalid UTF-8"""
+    try:
+        t = b.decode("utf-8")
+    except UnicodeDecodeError:
+        return True
+    return any((ord(c) < 32 and c not in "\t\n\r") or ord(c) in (0xFFFE, 0xFFFF) for c in t)
+
+
+class _Mix(list):
+    """a list of plain strings whose rng.choice() sometimes yields a byte-rich one"""
+
+
+NAMES = ["X", "Y", "Z", BYTE_CLASSES["utf8"], BYTE_CLASSES["xml"], BYTE_CLASSES["ctl01"]]
+VALS = ["a", "b", "c", "d"] + [BYTE_CLASSES[k] for k in ("utf8", "tab", "lf", "cr", "ctl1f", "del", "hi80", "latin1", "xml", "entity",
+                                                           "lead", "trail", "blank", "empty", "mixed")]
+ONAMES = ["n0", "n1", "big name", "<&>\"'"] + [BYTE_CLASSES[k] for k in ("utf8", "crlf", "ctl0b", "hiff", "cdata", "trail", "empty", "mixed")]
 NUMA, PU = 14, 4
 
 
@@ -503,4 +530,23 @@ def filter_cases(repo):
         for ty, nm in FILTER_TYPES:
             cases.append(["case filt-%s-%s-inB" % (base, nm), "xmlbackend 1", "topo f%d=1 xml %s" % (ty, p), "topob xml " + p, "build", "end"])
             cases.append(["case filt-%s-%s-inA" % (base, nm), "xmlbackend 1", "topo xml " + p, "topob f%d=1 xml %s" % (ty, p), "build", "end"])
+    return cases
+
+
+# ---- every byte class through build -> export -> load -> apply, and as a hand-made list, 2 x 2 backends ----
+def bytes_cases():
+    cases = []
+    for e in (0, 1):
+        for i in (0, 1):
+            for k, v in BYTE_CLASSES.items():
+                h = hx(v)
+                nm = h if v else hx("K")
+                cases.append(["case bytes-e%d-i%d-%s-list" % (e, i, k), "xmlbackend %d %d" % (e, i), XML_TOPO, "xmlhand 3",
+                              "D a 1 0 name - %s %s" % (hx("old"), h), "D a 1 1 name - %s %s" % (h, hx("new")),
+                              "D a 1 0 info %s %s %s" % (nm, h, hx("v")), "end"])
+                cases.append(["case bytes-e%d-i%d-%s-build" % (e, i, k), "xmlbackend %d %d" % (e, i), XML_TOPO,
+                              "a name 1 0 %s" % hx("old"), "a name 1 1 %s" % h, "a infoadd 1 0 %s %s" % (nm, h),
+                              "a infoadd 2 0 %s %s" % (hx("J"), hx("w")),
+                              "b name 1 0 %s" % h, "b name 1 1 %s" % hx("new"), "b infoset 1 0 0 %s" % hx("v"),
+                              "b infoset 2 0 0 %s" % h, "build", "end"])
     return cases
